@@ -25,6 +25,7 @@ type spanFile struct {
 	what   string
 	src    string
 	lo, hi int
+	debug  string // Load is asked for the disassembly of this function
 }
 
 type fileBuilder struct{ lines []string }
@@ -67,7 +68,8 @@ var stmtCatalogue = []snippet{
 	{body: "n++"}, {body: "n--"}, {body: "(n)++"}, {body: "x := []int{1}; x[0]++"}, {body: "p := &n; *p++"}, {body: "x := 1; x++; n = x"}, {body: "x := 1; x--; n = x"},
 	// expression statements
 	{body: "println(n)"}, {body: "println(s)"}, {body: "println(b)"}, {body: "println()"}, {body: "println(n, s)"}, {body: "print(n)"}, {body: "panic(\"x\")"},
-	{body: "panic(n)"}, {body: "recover()"}, {body: "func() {}()"}, {body: "func(a int) { n = a }(1)"}, {body: "(func() {})()"}, {body: "println(1)"}, {body: "println(\"a\")"},
+	{body: "panic(n)"}, {body: "recover()"}, {body: "copy([]int{1}, []int{2})"}, {body: "delete(map[string]int{}, s)"}, {body: "clear(map[string]int{})"},
+	{body: "x := []int{1}; clear(x)"}, {body: "new(int)"}, {body: "var ch chan int; close(ch)"}, {body: "func() {}()"}, {body: "func(a int) { n = a }(1)"}, {body: "(func() {})()"}, {body: "println(1)"}, {body: "println(\"a\")"},
 	{body: "println(n + 1)"}, {body: "println(len(s))"}, {body: "(println(n))"},
 	{pre: "func vfn() {}", body: "vfn()"}, {pre: "func vfn(n int) {}", body: "vfn(n)"}, {pre: "func ifn() int { return 1 }", body: "ifn()"},
 	{pre: "func vfn(n int, s string) {}", body: "vfn(n, s)"}, {pre: "func vfn(xs ...int) {}", body: "vfn(1, 2)"}, {pre: "func vfn(xs ...int) {}", body: "vfn()"},
@@ -350,7 +352,7 @@ func renderFn(sn snippet, h fnHost, isExpr bool, what string) spanFile {
 	if h == hostFilter || h == hostDo || h == hostAux || h == hostMethod {
 		fb.add("")
 		fb.add("func g(m dsl.Matcher) {\n\t" + rule + "\n}")
-		return spanFile{what: what, src: fb.String(), lo: lo, hi: hi}
+		return spanFile{what: what, src: fb.String(), lo: lo, hi: hi, debug: map[fnHost]string{hostFilter: "flt", hostDo: "do", hostAux: "aux", hostMethod: "aux"}[h]}
 	}
 	// DSL hosts: n, s, b are package-level variables (not constants: nothing folds)
 	switch h {
